@@ -226,6 +226,6 @@ def _predicate(pred, case):
     if not pred: return True
     try:
         return bool(eval(pred, {"__builtins__": {"len": len, "any": any, "all": all, "sorted": sorted, "set": set, "list": list, "range": range, "str": str, "isinstance": isinstance,
-                                                  "dict": dict, "tuple": tuple, "min": min, "max": max, "abs": abs, "sum": sum, "int": int, "float": float, "bool": bool}}, {"case": case or {}}))
+                                                  "dict": dict, "enumerate": enumerate, "zip": zip, "tuple": tuple, "min": min, "max": max, "abs": abs, "sum": sum, "int": int, "float": float, "bool": bool}}, {"case": case or {}}))
     except Exception:
         return False
